@@ -29,6 +29,7 @@ import CoreDhcp.Props.C15
 import CoreDhcp.Props.System
 import CoreDhcp.Props.GenAlloc4
 import CoreDhcp.Props.GenHandlers4
+import CoreDhcp.Props.GenAlloc6
 open CoreDhcp
 #print axioms C20_offset_exact
 #print axioms C20_offset_symm
@@ -197,3 +198,16 @@ open CoreDhcp
 #print axioms GEN_h4_serverid_eq
 #print axioms GEN_h4_nbp_eq
 #print axioms GEN_h4_nbp_unset
+#print axioms GEN_a6_toIndex_eq
+#print axioms GEN_a6_toIndex_none
+#print axioms GEN_a6_toPrefix_eq
+#print axioms GEN_a6_contains_eq
+#print axioms GEN_a6_contains_none
+#print axioms GEN_a6_new_eq
+#print axioms GEN_a6_new_outside_domain
+#print axioms GEN_a6_new_other
+#print axioms GEN_a6_free_eq
+#print axioms GEN_a6_free_other
+#print axioms GEN_a6_free_outside
+#print axioms GEN_a6_allocate_eq
+#print axioms GEN_a6_allocate_eq'
